@@ -652,5 +652,5 @@ func scC06(r *Run) {
 }
 
 func init() {
-	register(&PropDef{ID: "C06", Quick: 2000, Thorough: 50000, Profiles: []ProfileDef{{Name: "ll", Share: 1, Sc: scC06}}})
+	register(&PropDef{ID: "C06", Quick: 2000, Thorough: 150000, Profiles: []ProfileDef{{Name: "ll", Share: 1, Sc: scC06}}})
 }
